@@ -15,7 +15,7 @@ from gym_gridverse.geometry import Shape
 from gym_gridverse.grid_object import Color, grid_object_registry
 from gym_gridverse.spaces import ObservationSpace, StateSpace
 
-from vt import comp, core, envs, gen, impl, tsuite, wire
+from vt import access, comp, core, envs, gen, impl, tsuite, wire
 
 TY = gen.TY
 
@@ -244,7 +244,7 @@ def functional_steps(ctx):
         if aligned or r.random() < 0.3:
             # observe first: an observation must lie in the observation space and leave the state where it was -- in the state space
             with impl.Journal(r.randrange(1 << 30)) as j0:
-                env._rng = j0.own
+                access.set_rng(env, j0.own)
                 try:
                     ob = env.functional_observation(st)
                     if not env.observation_space.contains(ob):
@@ -256,7 +256,7 @@ def functional_steps(ctx):
                 ctx.violation('observing a state took it out of the state space / changed it', {'env': desc, 'state': gen.show_state(cs), 'after': gen.show_state(wire.cstate(st)), 'wire_state': cs})
                 st = wire.mkstate(cs)
         with impl.Journal(r.randrange(1 << 30)) as j:
-            env._rng = j.own
+            access.set_rng(env, j.own)
             try:
                 nxt, rwd, done = env.functional_step(st, envs.ACTS[a])
                 out = ('ok', (wire.cstate(nxt), rwd, done))
